@@ -201,6 +201,10 @@ class FileCache(TileCacheBase):
                 if e.errno != errno.EEXIST:
                     raise e
 
+        # report the metadata of the tile as it is stored now (the link), like load_tile_metadata
+        stats = os.lstat(tile_loc)
+        tile.timestamp = stats.st_mtime
+        tile.size = stats.st_size
         return
 
     def __repr__(self):
